@@ -51,9 +51,25 @@ def elems_term(t, elem_sort):
     return f(t)
 
 
-def note_at(seq_t, idx_t, elem_sort):
+def _use_elems():
+    ex = CURRENT
+    if ex is not None and not getattr(ex, "_elems_used", False):
+        ex._elems_used = True
+        for a in getattr(ex, "_pending_at", []):
+            note_at(*a, _flush=True)
+        ex._pending_at = []
+
+
+def note_at(seq_t, idx_t, elem_sort, _flush=False):
     """s[i] with 0 <= i < len(s) is an element of s."""
     if CURRENT is None:
+        return
+    # the membership facts only matter once the path uses element sets (`in`, set(), ...):
+    # until then they are held back, so pure string/arith queries stay free of array theory
+    if not getattr(CURRENT, "_elems_used", False) and not _flush:
+        if not hasattr(CURRENT, "_pending_at"):
+            CURRENT._pending_at = []
+        CURRENT._pending_at.append((seq_t, idx_t, elem_sort))
         return
     st = z3.simplify(seq_t)
     e = elems_term(st, elem_sort)
@@ -62,5 +78,6 @@ def note_at(seq_t, idx_t, elem_sort):
 
 
 def elems(seq: SSeq, py="set"):
+    _use_elems()
     ek = seq.kind.elem
     return SSet(elems_term(z3.simplify(seq.t), ek.sort), KSet(ek, py))
